@@ -493,6 +493,30 @@ func hashEngine(c *Ctx) {
 		{{Name: "", Kind: 'f', Content: []byte("rootfile")}},
 		{{Name: "", Kind: 'L', Link: "x"}},
 	}
+	// deep nesting: any per-depth state (stacks, pools, fixed arrays) in the hasher shows only beyond its size
+	deepChain := func(depth int) Fileset {
+		f := Fileset{{Name: "", Kind: 'd', Perms: 0755}}
+		p := ""
+		for i := 0; i < depth; i++ {
+			if p != "" {
+				p += "/"
+			}
+			p += string([]byte{byte('a' + i%26)})
+			f = append(f, Entry{Name: p, Kind: 'd', Perms: 0755})
+			if i%7 == 3 {
+				f = append(f, Entry{Name: p + "/side", Kind: 'f', Perms: 0644, Content: []byte{byte(i)}})
+			}
+		}
+		f = append(f, Entry{Name: p + "/x", Kind: 'f', Perms: 0644, Content: []byte("x")}, Entry{Name: p + "/y", Kind: 'f', Perms: 0600, Content: []byte("y")})
+		return f
+	}
+	deeps := []int{16, 21, 40}
+	if c.Tier == "thorough" {
+		deeps = []int{3, 8, 15, 16, 17, 31, 32, 33, 63, 64, 65, 100, 130, 260}
+	}
+	for _, d := range deeps {
+		corpus = append(corpus, deepChain(d))
+	}
 	opts := GenOpts{MaxEntries: maxEnt, Kinds: "fffdLLpDc", SubSecond: true, BigIds: true, Setid: true, Xattrs: true, MaxContent: 200}
 	for k := 0; k < nSets+len(corpus); k++ {
 		var fsx Fileset
